@@ -30,12 +30,18 @@ CLAIMED = {
  "C12": dict(level="proof", design="DESIGN.md 4/C12",
    text="Covenant::from_bytes proved to decode exactly dec_all(bytes) (whole input, no panic) and to_bytes/hash to produce enc_all(ops); lemmas: decode-then-encode returns the same bytes, encode-then-decode the same program. The per-instruction facts K1/K2 they rest on are discharged by Kani/CBMC on the real compiled OpCode::{decode,encode} in the thorough tier (complete: loop-free over all <=35-byte inputs / all operands) and assumed in the quick tier.",
    note=TRUST + "A-HANDOVER: K1/K2 as stated in lemmas/codec.rs are what the Kani harnesses assert; locality of decode in the unread tail (std::io::Read for &[u8]).", technique=T_VERUS + " + Kani/CBMC full-domain harnesses (thorough)"),
+ "C10": dict(level="proof", design="DESIGN.md 4/C10",
+   text="Every arm of Executor::step except Exp (lifted mechanically to one method per instruction) proved equal to the spec semantics sem_inner (stack/heap/pc/loop-stack as a function of the state before), the dispatcher proved to route each opcode to its arm, update_pc_state proved equal to the recursive loop-bookkeeping spec, step = arm then bookkeeping; Value conversions proved. Hence one step is a deterministic function of the state.",
+   note=TRUST + "A-U256/A-CATVEC operation contracts; Exp's result (square-and-multiply) and run_to_end's iteration not yet under contract; clauses not fixed by the property text are characterisations of the pinned code (lemmas/melvm_spec.rs header).", technique=T_VERUS + "; match-arm lifting (R5b)"),
  "C13": dict(level="proof", design="DESIGN.md 4/C13",
    text="stake_is_consistent <=> the three conditions; load_stake_info registers exactly the consistent SYM stakes and rejects malformed ones; check_tx_validity rejects inputs whose creating transaction is a registered or new stake; StakeSet::votes/total_votes equal the order-independent sum over stakes with start <= epoch < end; unlock_old keeps exactly e_post_end >= epoch.",
    note=TRUST + "Lock window over histories (next_unsealed chain) and stakes_hash commitment pending in the seal unit.", technique=T_VERUS),
  "C14": dict(level="proof", design="DESIGN.md 4/C14",
    text="confirm proved: Some only if every signature verifies over the header hash; given that, Some whenever 3*present > 2*total and None whenever 3*present < 2*total, with present/total defined as order-independent sums over the stake map; monotonicity lemma mechanised. The inverted threshold of the pinned tree was repaired (fix: commit) after the obligations failed.",
    note=TRUST + "Ed25519 verification uninterpreted (sig_ok); header() assumed by contract.", technique=T_VERUS),
+ "C15": dict(level="proof", design="DESIGN.md 4/C15",
+   text="The three request-selection functions proved to return exactly the block's transactions that are genuine requests (right kind, unspent outputs, canonically spelled existing pool, non-zero amounts, live pool for swaps); request_pool_key proved to accept only canonical spellings; multiply_frac proved = min(floor(x*n/d), 2^128-1). Four genuine defects found by these obligations were repaired (fix: commits).",
+   note=TRUST + "Settlement loops (pro-rata division, pool movement) and price properties pending; PoolState arithmetic assumed (A-STRUCTS).", technique=T_VERUS),
  "C17": dict(level="proof", design="DESIGN.md 4/C17",
    text="move_action_fee_multiplier proved for every multiplier 0..2^128 and every delta: exact step trunc(max(m/128,2)*d/128) on [2, 2^70], clamped outside, |step| <= max(m/128,2), no overflow, frame. Repaired (fix: commit) after the overflow/underflow obligations failed.",
    note=TRUST + "seal(None) frame pending in the seal unit.", technique=T_VERUS),
@@ -76,6 +82,6 @@ def main():
          "checks": checks, "not_applicable": na,
          "notes": "exit 2 = undecided (never an alarm). known findings: /verif/known_findings.json"}
     json.dump(m, open(os.path.join(VERIF, "MANIFEST.json"), "w"), indent=1)
-SOURCE_COMMITS = ['804447c', '2d7ebd3', '3958b62', 'cf14a0b']
+SOURCE_COMMITS = ['804447c', '2d7ebd3', '3958b62', 'cf14a0b', 'bc6d031', '5d5037d', '886d0bc', '378bd5c']
 if __name__ == "__main__":
     main()
